@@ -79,6 +79,9 @@ def run_effect_scope(ctx, corr, dump, label, allow_known=False):
         if len(w) >= 8 and w[0] == 'fn' and w[2] == 'typed':
             corr.count('scope_stmts', int(w[5]))
             corr.count('scope_stmts_in_theorem_scope', int(w[7]))
+            corr.count('scope_functions')
+            if len(w) >= 10 and w[8] == 'depth_scope' and w[9] == '1':
+                corr.count('scope_functions_in_depth_theorem_scope')
             if w[3] != '1':
                 corr.disagreements.append({'kind': 'typing-hypothesis-false', 'file': label, 'function': w[1],
                                            'note': 'typedS is false on a tree the real front end produced: the side condition '
@@ -296,14 +299,17 @@ def replay(ctx, corr, path):
 
 
 MANIFEST = {
-    'level_text': 'proof (partial): effect semantics + structural induction over the Node tree of the code-generation model for every '
-                  'straight-line expression kind and every operand type; whole-function label-height check and rsp/x87 probes on the '
-                  'implementation for the rest',
-    'level_note': 'C20_expr_partial / C20_addr_partial / C20_stmt_partial / C20_repeat_partial / C20_one_value_partial / C20_cast_table are '
-                  'proved for all trees in the decidable scope covE/covA/covS; C20_expr_Statement, C20_stmt_Statement and '
-                  'C20_function_Statement (FUNCALL, COND, LOGAND, LOGOR, STMT_EXPR, CAS, control-flow statements) are open and covered '
-                  'by Effect.checkBody on every emitted function plus CPU probes; two known findings (empty struct argument, jump out '
-                  'of a statement expression) are kernel-checked counterexamples of the full statements',
+    'level_text': 'proof (partial): effect semantics + structural induction over the Node tree of the code-generation model. depth half '
+                  '(assert(depth == 0), call-alignment parity): all 47 node kinds. rsp/x87 half: every straight-line expression kind '
+                  'incl. calls with any argument list, every operand type; whole-function label-height check and rsp/x87 probes on '
+                  'the implementation for code with labels',
+    'level_note': 'C20_depth_partial / C20_assert hold for every tree whose calls pass no empty struct (all node kinds). C20_expr_partial / '
+                  'C20_expr_balanced_partial / C20_addr_partial / C20_stmt_partial / C20_repeat_partial / C20_one_value_partial / '
+                  'C20_call_partial / C20_assert_partial / C20_cast_table are proved for all trees in the decidable scope covE/covA/covS; '
+                  'C20_expr_Statement, C20_stmt_Statement, C20_function_Statement (COND, LOGAND, LOGOR, STMT_EXPR, CAS, alloca, '
+                  'control-flow statements: code with labels) are open and covered by Effect.checkBody on every emitted function plus '
+                  'CPU probes; two known findings (empty struct argument, jump out of a statement expression) are kernel-checked '
+                  'counterexamples of the full statements',
     'technique': 'Lean 4 machine-checked proof; model tied to codegen.c by byte-for-byte assembly text equality on every run',
     'design_ref': 'DESIGN.md section 6, C20',
 }
